@@ -1,6 +1,6 @@
 (** M-CLIENT (v5) as the code was BEFORE the v5 fix: commits dacd5a3, 7f7c0fd, dbc4d0a, 1b8f296,
-    1f8a3a7, e3e8c14, f762552, c064db0 — kept as the record of findings F4/F8/F9 (v5 copies) and
-    F14a-e (witness lemmas: Client/Findings5.v).  Same types as Client/State5.v; the functions
+    1f8a3a7, e3e8c14, f762552, c064db0, b2fc5b9 — kept as the record of findings F4/F8/F9 (v5 copies),
+    F14a-e and F37 (CONNACK receive-maximum 0) (witness lemmas: Client/Findings5.v).  Same types as Client/State5.v; the functions
     live in module [Orig].  No proofs here. *)
 From Rumqtt Require Export Client.State5.
 
